@@ -51,6 +51,12 @@ impl SwiftField for Field86 {
             }
 
             // Validate SWIFT character set
+            if line.is_empty() {
+                return Err(ParseError::InvalidFormat {
+                    message: "Field 86 line cannot be empty".to_string(),
+                });
+            }
+
             parse_swift_chars(line, "Field 86 line")?;
 
             lines.push(line.to_string());
